@@ -317,7 +317,9 @@ is_standard_layout() const {
   Derivation::const_iterator di;
   for (di = _derivation.begin(); di != _derivation.end(); ++di) {
     CPPStructType *base = (*di)._base->as_struct_type();
-    if ((*di)._is_virtual) {
+    if ((*di)._is_virtual || base == nullptr) {
+      // (A base that is not a known class: only declared, or a template
+      // parameter.)
       return false;
     }
 
